@@ -80,7 +80,7 @@ pub fn run(_params: &[i64], ops: &Rows, mon: &mut Mon) -> Rows {
             0 => res = Some(Some(H::A(CArc::from(Tok::mk(op[2]))))),
             1 => res = Some(Some(H::S(CArcSome::from(Tok::mk(op[2]))))),
             2 => res = Some(Some(H::Std(Arc::new(Tok::mk(op[2]))))),
-            3 => { let i = slot(op[1]); match take(&mut pool, i) { H::Std(a) => res = Some(Some(H::A(CArc::from(a)))), o => { if i < pool.len() { pool[i] = o; } } } }
+            3 => { let i = slot(op[1]); match take(&mut pool, i) { H::Std(a) => res = Some(Some(H::A(if k % 2 == 0 { CArc::from(a) } else { CArc::from(Some(a)) }))), o => { if i < pool.len() { pool[i] = o; } } } }
             4 => { let i = slot(op[1]); match take(&mut pool, i) { H::Std(a) => res = Some(Some(H::S(CArcSome::from(a)))), o => { if i < pool.len() { pool[i] = o; } } } }
             5 => res = Some(Some(H::A(if k % 2 == 0 { CArc::from(None::<Arc<Tok>>) } else { CArc::default() }))),
             6 => { let i = slot(op[1]); if i < pool.len() { match &pool[i] {
